@@ -20,6 +20,7 @@ import (
 	"time"
 
 	"github.com/dapr/kit/logger"
+	"github.com/dapr/kit/verifhook"
 )
 
 type Options struct {
@@ -49,14 +50,17 @@ func New(opts Options) *Dir {
 
 func (d *Dir) Write(files map[string][]byte) error {
 	newDir := filepath.Join(d.base, fmt.Sprintf("%d-%s", time.Now().UTC().UnixNano(), d.targetDir))
+	verifhook.Point("dir.write.step", 0, newDir)
 
 	if err := os.MkdirAll(d.base, os.ModePerm); err != nil {
 		return err
 	}
+	verifhook.Point("dir.write.step", 1)
 
 	if err := os.MkdirAll(newDir, os.ModePerm); err != nil {
 		return err
 	}
+	verifhook.Point("dir.write.step", 2)
 
 	for file, b := range files {
 		path := filepath.Join(newDir, file)
@@ -64,18 +68,21 @@ func (d *Dir) Write(files map[string][]byte) error {
 			return err
 		}
 		d.log.Infof("Written file %s", file)
+		verifhook.Point("dir.write.step", 3, file)
 	}
 
 	if err := os.Symlink(newDir, d.target+".new"); err != nil {
 		return err
 	}
 
+	verifhook.Point("dir.write.step", 5)
 	d.log.Infof("Syslink %s to %s.new", newDir, d.target)
 
 	if err := os.Rename(d.target+".new", d.target); err != nil {
 		return err
 	}
 
+	verifhook.Point("dir.write.step", 6)
 	d.log.Infof("Atomic write to %s", d.target)
 
 	if d.prev != nil {
@@ -83,6 +90,7 @@ func (d *Dir) Write(files map[string][]byte) error {
 			return err
 		}
 	}
+	verifhook.Point("dir.write.step", 7)
 
 	d.prev = &newDir
 
